@@ -238,14 +238,25 @@ func c02FailedClose(r *fw.R, d c02Desc) {
 		return
 	}
 	go func() { time.Sleep(20 * time.Millisecond); ac() }()
-	cerr := w.Close()
+	var cerr error
+	gaveUp := "Close"
+	if d.Seed%2 == 1 {
+		// it is a Write of the streamed message (a chunk that has to go out as a frame) that gives up
+		gaveUp = "Write"
+		_, cerr = w.Write(genPayload(rng, 150000, 1, nil)) // (incompressible, more than the compressor buffers)
+	} else {
+		cerr = w.Close()
+	}
 	libEnd.StallWrites(false)
 	perr := <-pingDone
 	if cerr == nil {
-		r.Inconclusivef("the writer's Close did not give up behind the stalled Ping")
+		r.Inconclusivef("the writer's %s did not give up behind the stalled Ping", gaveUp)
 		return
 	}
 	r.Count("writer_closes_that_gave_up_with_the_connection_alive", 1)
+	if gaveUp == "Write" {
+		r.Count("writer_writes_that_gave_up_with_the_connection_alive", 1)
+	}
 	// what the application does next
 	var nerr error
 	for i := 0; i < 2; i++ {
@@ -266,10 +277,10 @@ func c02FailedClose(r *fw.R, d c02Desc) {
 	peer.Locked(func() {
 		conf := peer.Conf
 		for _, v := range conf.Violations {
-			r.Violate("C02/nonconformant-stream/"+vioClass(v), fmt.Sprintf("%s %s: after a streamed message's Close failed (%v; ping: %v; next Write: %v): %s", d.Role, paramsKey(d.Params), cerr, perr, nerr, v), "frames: "+string(conf.FrameLog))
+			r.Violate("C02/nonconformant-stream/"+vioClass(v), fmt.Sprintf("%s %s: after a streamed message's %s failed (%v; ping: %v; next Write: %v): %s", d.Role, paramsKey(d.Params), gaveUp, cerr, perr, nerr, v), "frames: "+string(conf.FrameLog))
 		}
 		r.Count("frames_parsed", int64(conf.Frames))
-		r.Key("%s/%s/failed-writer-close/size=%s/next-write-ok=%v", d.Role, paramsKey(d.Params), sizeClass(d.Ops[0].Size), nerr == nil)
+		r.Key("%s/%s/failed-writer-%s/size=%s/next-write-ok=%v", d.Role, paramsKey(d.Params), gaveUp, sizeClass(d.Ops[0].Size), nerr == nil)
 	})
 }
 
